@@ -88,12 +88,13 @@ def build_datasets(case, tmp, with_rid=True, label_enc=None, id_prefix=""):
             label_enc=label_enc or case.get("label_enc", "pm1"),
             informative_sign=case.get("sign", 1.0),
             id_prefix=id_prefix,
+            twin=case.get("twin", False),
         )
         path = tmp / f"{id_prefix}file{fi}{ext}"
         datagen.write_table(df, path, row_group=case.get("row_group"))
         dfs.append(df)
         metas.append(meta)
-        psms.append(datagen.build_ondisk(path, df, meta))
+        psms.append(datagen.build_ondisk(path, df, meta, raw_labels=case.get("raw_labels", False)))
     return dfs, metas, psms
 
 
